@@ -77,12 +77,39 @@ def count_overflows(l):
     return n
 
 
+def drain_refill(l):
+    """coverage statistic only: replay an accepted block on the recorded numbers (success flags as recorded) and look at
+    the balances at transaction boundaries: (an account that owned something before the block is at zero after one
+    transaction and back at exactly its pre-block balance after a later one, ... is at zero, non-zero, zero again)"""
+    pre = {a: int(v) for a, v in l["pre"].items()}
+    bal = dict(pre)
+    hist = {a: [] for a in pre}
+    for t, r in zip(l["txs"], l["out"]["results"]):
+        bal[t["sponsor"]] -= int(r["fee"])
+        if r["ok"]:
+            for a in t["actions"]:
+                bal[t["actor"]] -= int(a["value"])
+                bal[a["to"]] += int(a["value"])
+        for a in bal:
+            hist[a].append(bal[a])
+    exact = again = 0
+    for a, h in hist.items():
+        if pre[a] == 0:
+            continue
+        zeros = [i for i, v in enumerate(h) if v == 0]
+        if zeros and any(v == pre[a] for v in h[zeros[0] + 1:]):
+            exact = 1
+        if len(zeros) >= 2 and any(v > 0 for v in h[zeros[0]:zeros[-1]]):
+            again = 1
+    return exact, again
+
+
 def stats(ctx, files, big=False):
     feats = {"blocks": 0, "txs": 0, "actions": 0, "failed_tx": 0, "rejected_blocks": 0, "self_transfers": 0,
              "sponsor_is_not_actor": 0, "records_deleted": 0, "records_created": 0, "txs_with_ge8_actions": 0,
              "delete_then_recreate_in_one_tx": 0,
              "accounts_emptied": 0, "accounts_funded_from_zero": 0,
-             "overflow_rejections": 0}
+             "overflow_rejections": 0, "drain_then_exact_refill_across_txs": 0, "drain_refill_drain_across_txs": 0}
     shapes = set()
     sample = None
     n_lines = 0
@@ -104,6 +131,9 @@ def stats(ctx, files, big=False):
                 feats["rejected_blocks"] += 1
                 continue
             nontrivial = False
+            ex, ag = drain_refill(l)
+            feats["drain_then_exact_refill_across_txs"] += ex
+            feats["drain_refill_drain_across_txs"] += ag
             if big:
                 feats["overflow_rejections"] += count_overflows(l)
             for t, r in zip(l["txs"], out["results"]):
@@ -287,7 +317,7 @@ def run(ctx):
     th = None
     if bfiles:
         bfeats = stats(ctx, bfiles, big=True)
-        if bfeats["overflow_rejections"] == 0:
+        if ctx.only is None and bfeats["overflow_rejections"] == 0:
             raise vlib.Infra("vacuous: no 64-bit block contains a transfer rejected for overflowing the receiver")
 
         def work():
@@ -299,16 +329,21 @@ def run(ctx):
         th.start()                          # Apalache runs while TLC does the design step and the trace validation
     try:
         if ctx.only is None:
-            mc = vlib.tlc_mc(ctx, "Transfer_MC", ctx.pick("Transfer_MC_quick.cfg", "Transfer_MC.cfg"), label="design",
-                             workers=ctx.pick(6, None))
-            if mc["violated"]:
-                raise vlib.Infra("design step: the implementation-shaped transfer machine does not refine the ledger: " + mc["violated"])
+            for cfg in ctx.pick(["Transfer_MC_quick2.cfg"], ["Transfer_MC_quick.cfg", "Transfer_MC.cfg"]):
+                mc = vlib.tlc_mc(ctx, "Transfer_MC", cfg, label="design-" + cfg[:-4], workers=ctx.pick(6, None))
+                if mc["violated"]:
+                    raise vlib.Infra("design step: the implementation-shaped transfer machine does not refine the ledger: " + mc["violated"])
             if not ctx.quick:
                 r = vlib.tlc_mc(ctx, "Transfer_MC", "Transfer_MC_original.cfg", label="orig", expect_violation=True)
                 ctx.cov["design_step_detects_pre_fix_Remove"] = bool(r["violated"])
                 if not r["violated"]:
                     raise vlib.Infra("sensitivity: the machine with the pre-fix Remove no longer violates Conserved")
-            for k in ("failed_tx", "self_transfers", "accounts_emptied", "accounts_funded_from_zero", "delete_then_recreate_in_one_tx"):
+                r = vlib.tlc_mc(ctx, "Transfer_MC", "Transfer_MC_blockdelete.cfg", label="blockdelete", expect_violation=True)
+                ctx.cov["design_step_detects_insert_ignoring_block_level_delete"] = bool(r["violated"])
+                if not r["violated"]:
+                    raise vlib.Infra("sensitivity: Insert ignoring a block-level delete no longer violates the refinement")
+            for k in ("failed_tx", "self_transfers", "accounts_emptied", "accounts_funded_from_zero", "delete_then_recreate_in_one_tx",
+                      "drain_then_exact_refill_across_txs", "drain_refill_drain_across_txs"):
                 if feats[k] == 0:
                     raise vlib.Infra("vacuous: no recorded block exercised " + k)
         stage(ctx, "design(tlc)")
